@@ -271,6 +271,10 @@ fn check_all_targets(o: &mut Oracle, sink: &mut Sink, rng: &mut Rng, bytes: &[u8
     borrow_checks(o, sink, text, bytes, reader_ok);
 }
 
+#[derive(Debug, Deserialize)]
+#[serde(untagged)]
+enum AnyStr<'a> { #[serde(borrow)] S(&'a str) }
+
 /// Borrowed targets: `&str` succeeds exactly when the owned parse succeeds and the parser handed the scalar
 /// out as a slice of the input (then the text is equal and lies inside the input); reader input never lends.
 fn borrow_checks(o: &mut Oracle, sink: &mut Sink, text: &str, bytes: &[u8], reader_ok: bool) {
@@ -314,6 +318,26 @@ fn borrow_checks(o: &mut Oracle, sink: &mut Sink, text: &str, bytes: &[u8], read
         sink.count(if all_lent { "borrow.seq_all_lent" } else { "borrow.seq_not_all_lent" });
         if all_lent != bv.is_ok() {
             o.fail("C09-borrow-iff-seq", "Vec<&str> over a flat sequence of scalars / aliases: success differs from what the raw parser lends", bytes, if bv.is_ok() { "ok" } else { "err" }, if all_lent { "ok" } else { "err" });
+        }
+    }
+    // the untyped path (`deserialize_any`, reached through untagged enums / flattened fields): a root scalar that the
+    // untyped reading takes for a STRING is lent exactly when the parser lent it (fix 3ad3e50: plain scalars used to
+    // be handed over owned, so `hello` was refused where `"hello"` was accepted)
+    if d.events.len() == 1 {
+        if let Ok(serde_json::Value::String(vs)) = serde_saphyr::from_str::<serde_json::Value>(text) {
+            let e = &d.events[0];
+            let canon_float = [".inf", "-.inf", ".nan"].contains(&vs.as_str());
+            if e.kind == 0 && !canon_float {
+                let lent = e.borrowed && e.value == vs;
+                let r = serde_saphyr::from_str::<AnyStr>(text);
+                sink.count(if lent { "borrow.any_lent" } else { "borrow.any_not_lent" });
+                match (&r, lent) {
+                    (Ok(AnyStr::S(b)), true) => { if *b != vs.as_str() { o.fail("C09-borrow-text-differs", "untagged &str differs from the untyped string", bytes, b, &vs); } }
+                    (Ok(_), false) => o.fail("C09-borrow-iff-any", "untagged enum of &str succeeded although the parser did not lend the scalar", bytes, "ok", "err"),
+                    (Err(e2), true) => o.fail("C09-borrow-iff-any", "untagged enum of &str refused a scalar that the parser lent (verbatim in the input)", bytes, &err_tok(e2), &format!("ok {vs:?}")),
+                    (Err(_), false) => {}
+                }
+            }
         }
     }
     // reader input never lends: asking the reader-side deserializer for a borrowed str is refused
